@@ -74,3 +74,7 @@ ALSO_SERVES = {
     "C03": ["urwid/util.py:calc_trim_text", "urwid/str_util.py:calc_text_pos", "urwid/str_util.py:calc_width"],
     "C04": ["urwid/util.py:calc_trim_text"],
 }
+
+SHARDS.update({
+    "urwid/widget/listbox.py:ListBox.calculate_visible": (12, 14),
+})
